@@ -25,7 +25,7 @@ PROP = dict(
         "one table per transaction; CREATE TABLE (NewHandlerForCreate) and multi-table transactions are outside the modelled fragment",
         "an elapsed wait timeout is injected only while a process is inside NewHandlerForRead/NewHandlerForUpdate (where lib/file itself notices it); when the deadline and the retry timer are ready at the same instant Go's select may take either -- such runs are detected and discarded",
     ],
-    level_text="Proof: Coq theorems (Properties/C09.v) over an executable transition-system model of the lock-file protocol of lib/file and its use by lib/query (29 program counters; one transition per file-system step: SearchFilePath, Exists, LockExists/RLockExists, O_EXCL creation of ._T.lock / ._T.<rnd>.rlock / ._T.temp, re-check and back-off, retry loop with the wait timeout elapsing at an arbitrary moment and being noticed where the code looks, open+load after the lock, COMMIT = Exists/Remove/Rename, release = Exists+Remove) hold for ANY number of processes and ANY schedule, by induction with a 20-clause invariant: lock_inv, mutual_exclusion (a holder for update excludes every other updater and reader), no_writer_starts_during_read, serialised (commits form a chain read-previous/write+1, table = initial + number of commits, commit order = lock acquisition order, each committed process exactly once), committed_count, quiescent_clean, timeout_changes_nothing (no event of a process that ends without committing changes the table; it holds no control file), timeout_needs_expiry. 'Fails only with lock timeout' is refuted for the pinned remove-then-rename COMMIT (witness schedule: 'file does not exist' inside the window) and proved for the rename-over variant; the refuted case is characterised exactly (only a step taken while another process is between Remove and Rename). Tie to the code: with the verif yield points 2-3 real transactions are driven on a scratch directory through schedules covering every enabled event of every reachable joint state (plus random interleavings of up to 5 processes in the thorough tier); after every event control files + creators, counter, parked yield point and outcome are compared with the model inside Coq; real-process soak with the csvq binary.",
+    level_text="Proof: Coq theorems (Properties/C09.v) over an executable transition-system model of the lock-file protocol of lib/file and its use by lib/query (29 program counters; one transition per file-system step: SearchFilePath, Exists, LockExists/RLockExists, O_EXCL creation of ._T.lock / ._T.<rnd>.rlock / ._T.temp, re-check and back-off, retry loop with the wait timeout elapsing at an arbitrary moment and being noticed where the code looks, open+load after the lock, COMMIT = Rename over the table -- or Exists/Remove/Rename before fix 4dfbb28, both variants are in the model --, release = Exists+Remove) hold for ANY number of processes and ANY schedule, by induction with a 20-clause invariant: lock_inv, mutual_exclusion (a holder for update excludes every other updater and reader), no_writer_starts_during_read, serialised (commits form a chain read-previous/write+1, table = initial + number of commits, commit order = lock acquisition order, each committed process exactly once), committed_count, quiescent_clean, timeout_changes_nothing (no event of a process that ends without committing changes the table; it holds no control file), timeout_needs_expiry. 'Fails only with the lock timeout' (only_lock_timeouts_rename_over) is proved for the COMMIT that renames over the table (/repo since fix 4dfbb28; the harness detects which COMMIT the tree has from the yield points reached) and refuted with a witness schedule for the former remove-then-rename COMMIT ('file does not exist' inside the window), where the failing case is characterised exactly (only a step taken while another process is between Remove and Rename). Tie to the code: with the verif yield points 2-3 real transactions are driven on a scratch directory through schedules covering every enabled event of every reachable joint state (plus random interleavings of up to 5 processes in the thorough tier); after every event control files + creators, counter, parked yield point and outcome are compared with the model inside Coq; real-process soak with the csvq binary.",
     level_note="Trusted: Coq kernel + vm_compute; the Go scheduler/observer harness; atomicity of single file-system calls (O_EXCL create, rename, unlink, stat, glob); yield points mark the steps. flock (second line of defence) and OS process scheduling are outside the model; real processes only in the soak. One table per transaction; CREATE TABLE not modelled.",
     technique="Coq theorems on an executable model + vm_compute correspondence with the Go implementation",
     design_ref="DESIGN.md section 5 (C09)",
